@@ -1,5 +1,5 @@
 """C14 — max_time: no step starts after the time budget is exhausted (virtual clock)."""
-import math, itertools
+import math, itertools, contextlib, io
 import numpy as np
 import gen, drive, dunit
 from common import coq_eval_cases, cz, clist, copt, cbool, Scaler, jsonable
@@ -82,7 +82,8 @@ def d_unit_and_monitor(ctx, n):
                  "settings that cannot fire, vs the model driver fed the same "
                  "clock readings; non-trivial = n_iter >= 2; distinct by (durations, T, read_cost)")
     ctx.monitor_rule = ("rows == first k with (time after step k) - start > T else n_iter, time taken from the harness clock "
-                        "(read_cost=0 runs); distinct by (optimizer, durations, T)")
+                        "(read_cost=0 runs); also for a search that follows one which never reached finish_search (objective raised / abandoned step-API "
+                        "run), after an arbitrary pause; distinct by (optimizer, durations, T)")
     results = []
     for spec in specs(ctx, n):
         r = dunit.run_case(spec)
@@ -111,6 +112,74 @@ def d_unit_and_monitor(ctx, n):
                               % (len(o["rows"]), c["max_time"], k, c["n_iter"], spec["durations"]))
     u.samples = [dunit.spec_brief(s) for s, _ in results[:2]]
     dunit.eval_d_unit(u, results)
+    aborted_then_timed(ctx, 10 if ctx.quick else 60)
+
+
+def aborted_then_timed(ctx, n):
+    """a search that never reaches finish_search (the objective raises, or init_search / search_step driven by hand and abandoned),
+    followed by search(max_time=T) on the same optimizer: the budget of the second search starts when IT begins"""
+    rng = ctx.sub_rng("aborted")
+    names = [nm for nm in gen.FAST]
+    for i in range(n):
+        name = names[i % len(names)]
+        space, meta = gen.gen_space(rng, sizes=(3, 5, 8), max_points=200)
+        table, _ = gen.gen_table(rng, space)
+        n_iter = rng.choice([4, 6, 9])
+        durs = [rng.choice([1, 2, 3]) for _ in range(n_iter)]
+        T = max(1, sum(durs[:rng.randrange(1, n_iter + 1)]) + rng.choice([-1, 0, 1]))
+        clock = drive.VClock(0)
+        spec = dict(name=name, space=space, table=table, seed=rng.randrange(10 ** 6), init=gen.gen_initialize(rng, space), meta=meta)
+        opt = dunit.build_opt(name, space, spec["init"], None, spec["seed"], None)
+        how = rng.choice(["raises", "abandoned-steps"])
+        wait = rng.choice([5, 50, 1000])
+        # the objective raises in the iteration phase (an exception inside an initialisation step leaves the initialiser's index one
+        # ahead of the completed steps: the next search then runs out of initial positions -- outside every listed property)
+        pre = int(opt.init.n_inits) + rng.choice([0, 1, 2]) if how == "raises" else rng.choice([1, 2, 3])
+
+        class Boom(Exception):
+            pass
+        calls = {"n": 0}
+
+        def bad(para):
+            calls["n"] += 1
+            clock.advance(1)
+            if calls["n"] > pre:
+                raise Boom()
+            return 0.0
+        obj = drive.Objective(space, table, (), durs, clock, "float", 0)
+        try:
+            with drive.patched_clock(clock), drive.silence(), contextlib.redirect_stderr(io.StringIO()):
+                if how == "raises":
+                    try:
+                        opt.search(bad, n_iter=pre + 3, verbosity=False, memory=False)
+                    except Boom:
+                        pass
+                else:
+                    opt.init_search(bad, pre, None, None, None, False, None, False)
+                    for k_ in range(pre):
+                        opt.search_step(k_)
+                clock.advance(wait)                      # time passes between the two searches
+                rows0 = len(opt.results_mang.results_list)
+                opt.search(obj, n_iter=n_iter, max_time=T, verbosity=False, memory=False)
+                rows = len(opt.search_data) - rows0
+        except Exception as e:
+            ctx.blocked.append(dict(optimizer=name, scenario=how, exc=[type(e).__name__, str(e)[:100]]))
+            continue
+        ctx.monitor_runs += 1
+        ctx.monitor_nontrivial.add((name, how, tuple(durs), T, wait))
+        cum, k = 0, None
+        for j, d in enumerate(durs):
+            cum += d
+            if cum > T:
+                k = j + 1
+                break
+        expect = k if k is not None else n_iter
+        if rows != expect:
+            ctx.violation(dict(kind="max_time-after-aborted-search", optimizer=name, scenario=how),
+                          dict(optimizer=name, scenario=how, steps_before=pre, wait=wait, durations=durs, max_time=T, n_iter=n_iter, rows=rows, expected=expect,
+                               space=jsonable(space), seed=spec["seed"]),
+                          "%s: after a search that never reached finish_search (%s), search(max_time=%d) produced %d rows, but its own elapsed "
+                          "time first exceeds the budget after step %r (n_iter=%d)" % (name, how, T, rows, k, n_iter))
 
 
 def pre_build(ctx):
